@@ -131,7 +131,10 @@ theorem makeUdp_ok (c : ChanCfg) (hc : c.AddrOk) (sp dp : Nat) (payload : Buf)
   · rw [if_pos hv] at hc
     simp only [hv, if_true, Cksum.udp_ipv6_checksum]
     rw [show Cksum.protoUdp = 17 from rfl, Cksum.ipv6Checksum_eq 3 17 hc.1 hc.2 hlen]
-    exact ⟨Rfc1071.ocsum _, by unfold Rfc1071.ocsum; omega, rfl⟩
+    refine ⟨if Rfc1071.ocsum _ = 0 then 0xFFFF else Rfc1071.ocsum _, ?_, rfl⟩
+    split
+    · omega
+    · unfold Rfc1071.ocsum; omega
   · rw [if_neg hv] at hc
     have hv' : c.v6 = false := by simpa using hv
     simp only [hv', Bool.false_eq_true, if_false, Cksum.udp_ipv4_checksum]
@@ -335,6 +338,42 @@ def udpPkt (sp dp ck : Nat) (payload : Buf) : Buf :=
   hi sp :: lo sp :: hi dp :: lo dp :: hi (8 + payload.length) :: lo (8 + payload.length) ::
     hi ck :: lo ck :: payload
 
+/-- RFC 8200 §8.1 / RFC 768: replacing a computed checksum of 0x0000 by 0xFFFF (the other
+representation of zero in one's complement arithmetic) keeps the datagram valid -/
+theorem verifies_allones (pre d : Buf) (iw : Nat) (hpre : pre.length % 2 = 0)
+    (hf : 2 * iw + 1 < d.length) (h : verifies (pre ++ putField iw 0 d)) :
+    verifies (pre ++ putField iw 0xFFFF d) := by
+  unfold verifies at *
+  rw [Cksum.wordSum_append_even _ _ hpre, Cksum.wordSum_putField _ (by omega) d iw hf] at *
+  have e : wordSum pre + (wordSum (zeroField iw d) + 65535) =
+      (wordSum pre + (wordSum (zeroField iw d) + 0)) + 65535 := by omega
+  rw [e]
+  revert h
+  generalize wordSum pre + (wordSum (zeroField iw d) + 0) = a
+  intro h
+  unfold fold16 at *
+  split at h
+  · omega
+  · split at h
+    · rw [if_neg (by omega), if_pos (by omega)]
+    · omega
+
+/-- over IPv6 the checksum `make_udp_packet` stores is never zero -/
+theorem makeUdp_nonzero6 (c : ChanCfg) (hv : c.v6 = true) (sp dp : Nat) (payload : Buf)
+    (ck : Nat) (pkt : Buf) (h : makeUdp c sp dp payload = .ok (ck, pkt)) : ck ≠ 0 := by
+  simp only [makeUdp, hv, if_true] at h
+  split at h
+  · cases h
+  · cases hx : Cksum.udp_ipv6_checksum (hi sp :: lo sp :: hi dp :: lo dp ::
+        hi (l4Hdr + payload.length) :: lo (l4Hdr + payload.length) :: 0 :: 0 :: payload) c.src c.dst with
+    | ok x =>
+      rw [hx] at h
+      simp only [R.bind_ok, R.pure_eq] at h
+      injection h with h; injection h with h1 _
+      rw [← h1]; split <;> omega
+    | err e => rw [hx] at h; cases h
+    | panic => rw [hx] at h; cases h
+
 theorem makeUdp_spec (c : ChanCfg) (hc : c.AddrOk) (sp dp : Nat) (payload : Buf)
     (h : 8 + payload.length ≤ maxUdpBuf c) :
     ∃ ck, ck ≤ 0xFFFF ∧ makeUdp c sp dp payload = .ok (ck, udpPkt sp dp ck payload) ∧
@@ -355,10 +394,14 @@ theorem makeUdp_spec (c : ChanCfg) (hc : c.AddrOk) (sp dp : Nat) (payload : Buf)
   by_cases hv : c.v6 = true
   · rw [if_pos hv] at hc
     obtain ⟨ck, h1, h2, h3⟩ := C13.udp_ipv6_checksum_verifies d c.src c.dst hc.1 hc.2 hlen hf
-    refine ⟨ck, h2, ?_, ?_⟩
+    refine ⟨if ck = 0 then 0xFFFF else ck, by split <;> omega, ?_, ?_⟩
     · simp only [hv, if_true]; rw [show (hi sp :: lo sp :: hi dp :: lo dp :: hi (8 + payload.length) ::
         lo (8 + payload.length) :: 0 :: 0 :: payload) = d from rfl, h1]; rfl
-    · simp only [hv, if_true]; rw [← hput, ← hdl]; exact h3
+    · simp only [hv, if_true]; rw [← hput, ← hdl]
+      split
+      · rename_i h0; rw [h0] at h3
+        exact verifies_allones _ d 3 (Cksum.pseudo6_length_even _ _ hc.1 hc.2) hf h3
+      · exact h3
   · rw [if_neg hv] at hc
     have hv' : c.v6 = false := by simpa using hv
     obtain ⟨ck, h1, h2, h3⟩ := C13.udp_ipv4_checksum_verifies d c.src c.dst hc.1 hc.2 hlen hf
